@@ -19,13 +19,13 @@ import (
 type symKind int
 
 const (
-	skOpaque symKind = iota
-	skColl           // the collection that is sorted
-	skIdx            // index i (side 0) or j (side 1)
-	skElem           // an expression over the fields of one element: side, key
-	skWhole          // a whole element (pointer to it or its value): side
-	skDiff           // elem(side0).key - elem(side1).key (sign +1) or the reverse (sign -1)
-	skAbsDiff        // |difference| of key
+	skOpaque  symKind = iota
+	skColl            // the collection that is sorted
+	skIdx             // index i (side 0) or j (side 1)
+	skElem            // an expression over the fields of one element: side, key
+	skWhole           // a whole element (pointer to it or its value): side
+	skDiff            // elem(side0).key - elem(side1).key (sign +1) or the reverse (sign -1)
+	skAbsDiff         // |difference| of key
 	skInt
 	skBool
 	skConst // a constant that is neither int nor bool (a float bound, nil)
